@@ -157,6 +157,12 @@ func toGoptunaSearchSpace(parameters []*api_v1_beta1.ParameterSpec) (map[string]
 				if err != nil {
 					return nil, err
 				}
+				// Goptuna rounds a sampled value to the nearest multiple of step counted from low, and the TPE and
+				// CMA-ES samplers draw from the whole [low, high] range. End the range on the last grid point,
+				// otherwise the rounded value can exceed the parameter's max.
+				if step > 0 && high-low >= step {
+					high = low + (high-low)/step*step
+				}
 				searchSpace[p.Name] = goptuna.StepIntUniformDistribution{
 					High: high,
 					Low:  low,
